@@ -36,15 +36,17 @@ Definition enc_obs (sp : ospace) (o : option (obsv Z)) : val :=
                   vbool (obs_contains sp x)]
   end.
 
-(** 1: the action space. [I; jnext; probes] ->
+(** 1: the action space. [I; jnext; probes; nvec?] ([nvec] given: the declared
+    space of the multi environment; otherwise the instance's own) ->
     [nvec; start; legal decisions; each legal decision contained?; each probe contained?] *)
 Definition cmd_action (v : val) : val :=
   let I := dec_instance (vnth v 0) in
   let d := mkd [] (asLof asN (vnth v 1)) [] [] in
   let legal := legal_decisions I d in
-  VL [vlist VI (action_nvec I); vlist VI action_start; vlist (vlist VI) legal;
-      vlist (fun a => vbool (action_contains (action_nvec I) a)) legal;
-      vlist (fun a => vbool (action_contains (action_nvec I) (asLof asZ a))) (asL (vnth v 2))].
+  let nvec := match asOpt (asLof asZ) (vnth v 3) with Some n => n | None => action_nvec I end in
+  VL [vlist VI nvec; vlist VI action_start; vlist (vlist VI) legal;
+      vlist (fun a => vbool (action_contains nvec a)) legal;
+      vlist (fun a => vbool (action_contains nvec (asLof asZ a))) (asL (vnth v 2))].
 
 (** The observations of one episode of an inner environment: reset, then one
     per step; a step = [remove_node calls; composite features]. *)
@@ -136,11 +138,22 @@ Definition cmd_padding (v : val) : val :=
     | _ => vopt enc_matrix (pad2 (asZ (vnth c 1)) (asN (vnth c 2)) (asN (vnth c 3)) (dec_matrix (vnth c 4)))
     end) (asL v).
 
+(** 5: the oracle: list of [space; mask; edge index; features] (an observation
+    of the IMPLEMENTATION) -> is it in that declared space? *)
+Definition dec_space (v : val) : ospace :=
+  mkspace (asN (vnth v 0)) (asN (vnth v 1))
+          (asLof (fun x => (dec_ftype (vnth x 0), (asN (vnth x 1), asN (vnth x 2)))) (vnth v 2)).
+Definition cmd_oracle (v : val) : val :=
+  vlist (fun c => vbool (obs_contains (dec_space (vnth c 0))
+                           (mkobs (asLof asB (vnth c 1)) (dec_matrix (vnth c 2)) (dec_feats (vnth c 3)))))
+        (asL v).
+
 Definition run_c18 (c : Z) (v : val) : val :=
   match c with
   | 1 => cmd_action v
   | 2 => cmd_single v
   | 3 => cmd_multi v
   | 4 => cmd_padding v
+  | 5 => cmd_oracle v
   | _ => VL []
   end.
